@@ -60,14 +60,16 @@ def twin_stage(name, cases_fn, prop="C08"):
 
 def stages(tier, rng, only=None):
     out = [ac.stage("grid3x2", PID, lambda: ac.cases(grids.datasets(3, 2), BIO, SCHEMES,
-                                                     namings=["ints", "letters", "weird", "neg"]), _nt),
+                                                     namings=["ints", "letters", "weird", "neg"]), _nt,
+                    extra_aux={"biofull": 1}),
            twin_stage("moves3x2", lambda: _search_cases(grids.datasets(3, 2), SCHEMES)),
            twin_stage("moves_random", lambda: _search_cases(
                [ac.random_dataset(rng, 6, 5, nmin=3) for _ in range(200 if tier == "quick" else 2000)],
                SCHEMES + FINE))]
     n_rand = 400 if tier == "quick" else 4000
     out.append(ac.stage("random", PID, lambda: ac.cases([ac.random_dataset(rng, 7, 6, nmin=3) for _ in range(n_rand)],
-                                                        BIO, SCHEMES + ac.grid_sample(rng, 8)), _nt))
+                                                        BIO, SCHEMES + ac.grid_sample(rng, 8)), _nt,
+                        extra_aux={"biofull": 1}))
     out.append(ac.stage("tiny_penalties", PID, lambda: ac.cases(
         [ac.random_dataset(rng, 6, 6, nmin=3) for _ in range(n_rand // 2)], BIO, ac.TINY), _nt))
     out.append(ac.stage("cycles", PID, lambda: ac.cases(
@@ -94,7 +96,7 @@ def stages(tier, rng, only=None):
         ["BioConsert", "BioCo", "Bio[Copeland,KwikSort]"], ac.MIXEDMAG[2:] + SCHEMES[:2],
         {"kind": "prealg", "cfg0": "ExactPulp"}, flags=(0,)), _nt))
     out.append(ac.stage("threshold", PID, lambda: ac.cases([ac.random_dataset(rng, 5, 4, nmin=3) for _ in range(n_rand)],
-                                                           BIO, FINE), _nt))
+                                                           BIO, FINE), _nt, extra_aux={"biofull": 1}))
     if tier == "thorough":
         out.append(ac.stage("grid3x3", PID, lambda: ac.cases(grids.datasets(3, 3), ["BioConsert", "BioCo"], SCHEMES,
                                                              flags=(0,)), _nt))
